@@ -68,6 +68,10 @@ func Walk(tokens []Token, failFast bool) (*File, error) {
 	return fragmentsToFile(fragments)
 }
 
+// maxBlockDepth is the deepest nesting of blocks the parser accepts: what walks
+// the tree recurses once per level, the input must not decide how deep.
+const maxBlockDepth = 1000
+
 func fragmentsToFile(fragments []Fragment) (*File, error) {
 
 	type walkingBlock struct {
@@ -87,6 +91,7 @@ func fragmentsToFile(fragments []Fragment) (*File, error) {
 		return ff, nil
 	}
 
+	depth := 0
 	for _, stmt := range fragments {
 		switch s := stmt.(type) {
 		case BlockHeader:
@@ -97,6 +102,16 @@ func fragmentsToFile(fragments []Fragment) (*File, error) {
 
 			if !s.Open {
 				continue
+			}
+
+			depth++
+			if depth > maxBlockDepth {
+				pos := s.SourceNode.Position()
+				ff.Errors = append(ff.Errors, &errpos.Err{
+					Pos: &pos,
+					Err: errors.New("blocks are nested too deeply"),
+				})
+				return ff, HadErrors
 			}
 
 			newBlock := &walkingBlock{
@@ -124,6 +139,7 @@ func fragmentsToFile(fragments []Fragment) (*File, error) {
 				continue
 			}
 			currentBlock = currentBlock.parent
+			depth--
 
 		default:
 			return nil, fmt.Errorf("unexpected fragment type %T", s)
